@@ -83,6 +83,9 @@ func runC20(c *mon.Ctx) {
 	for k := 0; k < n; k++ {
 		secret := r.Bytes(r.Range(1, 48))
 		other := r.Bytes(len(secret))
+		if string(other) == string(secret) {
+			other[0] ^= 0x55 // a different secret, always
+		}
 		server := gen.Pick(r, servers)
 		user := gen.Pick(r, users)
 		otherUser := gen.Pick(r, users)
